@@ -35,6 +35,14 @@ def make_tokens(rng, profile):
         T.define("side", "s1", "")
         if "" in pool:
             pool.remove("")
+    if not plain and rng.random() < 0.12:
+        T.define("name", "x", "")        # the empty string is a legal nameplate ...
+        if "" in pool:
+            pool.remove("")
+    if not plain and rng.random() < 0.12:
+        T.define("mbox", "m1", "")       # ... and a legal mailbox id
+        if "" in pool:
+            pool.remove("")
     for k, a in enumerate(["a1", "a2", "a3"]):
         if a in T.fwd["app"]:
             continue
@@ -43,9 +51,11 @@ def make_tokens(rng, profile):
         if s not in T.fwd["side"]:
             pick("side", s)
     for n in ["x", "y"]:
-        pick("name", n)
+        if n not in T.fwd["name"]:
+            pick("name", n)
     for m in ["m1", "m2"]:
-        pick("mbox", m)
+        if m not in T.fwd["mbox"]:
+            pick("mbox", m)
     for p in ["p1", "p2", "p3"]:
         pick("phase", p)
     for b in ["b1", "b2", "b3"]:
@@ -131,6 +141,9 @@ class Gen(object):
             self.nmsg += 1
             m["phase"] = opt(r.choice(["p1", "p2", "p3"]))
             m["body"] = opt(r.choice(["b1", "b2", "b3"]))
+            if r.random() < p.get("nonstring", 0):
+                # phases are "numeric or string" per the schema; ids are arbitrary JSON
+                m[r.choice(["phase", "id", "body"])] = r.choice(["#7", "#42", "#2.5", "#true"])
         elif ty == "close":
             ch = self.mbox_choices(fl["app"])
             m["mailbox"] = r.choice([ABSENT] + ch) if ch else ABSENT
@@ -141,8 +154,10 @@ class Gen(object):
                 m["mood"] = "empty"
         elif ty == "bind":
             m["appid"] = r.choice(p["apps"]); m["side"] = r.choice(p["sides"])
-        if p["with_ids"] and r.random() < 0.5:
+        if p["with_ids"] and r.random() < 0.5 and m["id"] == ABSENT:
             m["id"] = r.choice(["i1", "i2", "i3"])
+        if p.get("nonstring", 0) and r.random() < p["nonstring"] / 2 and ty not in ("add",):
+            m["id"] = r.choice(["#7", "#0", "#false"])
         return m
 
     def _live_names(self):
@@ -245,18 +260,28 @@ def run_random(rng, drv, profile, tid):
         o["tid"] = tid
         o["i"] = len(obs_list) + 1
         obs_list.append(o)
-        g.note(o)
+        if not drv.quiet:
+            g.note(o)
         return o
     do(ev0("Start"))
     # optional prefill: explicit claims of chosen names by short-lived connections
+    drv.quiet = bool(p.get("prefill") and p.get("skip_prefill_lines"))
     for (app, name) in p.get("prefill", []):
         c = drv.conn_names[0]
-        if drv.conn_flags()[c]["up"]:
+        if c in drv.protos:
             do(ev0("Drop", c=c))
         do(ev0("Connect", c=c))
         do(ev0("Cmd", c=c, m=msg0(type="bind", appid=app, side=rng.choice(p["sides"]))))
         do(ev0("Cmd", c=c, m=msg0(type="claim", nameplate=name)))
         do(ev0("Drop", c=c))
+    cut = len(obs_list) if (p.get("prefill") and p.get("skip_prefill_lines")) else 0
+    if drv.quiet:
+        # one recorded no-op step gives the state the set-up left
+        drv.quiet = False
+        snap = drv.read_disk()
+        obs_list[-1].update(db=snap["db"], udb=snap["udb"],
+                            hid=dict(conn=drv.conn_flags(), nextSweep=drv.next_sweep, up=drv.up,
+                                     rebooted=drv.rebooted, gen=drv.tokens.gen))
     for _ in range(p["steps"]):
         do(g.next_event())
     if p["final_quiesce"]:
@@ -279,6 +304,15 @@ def run_random(rng, drv, profile, tid):
                 do(ev0("Advance", d=min(drv.next_sweep - now, target - now)))
         if drv.now_ticks() >= drv.next_sweep:
             do(ev0("Sweep"))
+    if cut:
+        # the prefill itself is not part of the recorded trace: it starts from the state it left
+        last = obs_list[cut - 1]
+        rest = obs_list[cut:]
+        if rest:
+            rest[0]["pre"] = dict(db=last["db"], udb=last["udb"], now=last["now"], hid=last["hid"])
+            for n, o in enumerate(rest):
+                o["i"] = n + 1
+        return rest
     return obs_list
 
 
@@ -376,6 +410,8 @@ def run_scripted(rng, drv, profile, tid):
         elif op == "add":
             m = msg0(type="add", phase=rng.choice(["p1", "p2", "p3"]), body=rng.choice(["b1", "b2", "b3"]),
                      id=rng.choice([ABSENT, "i1", "i2"]))
+            if rng.random() < p.get("nonstring", 0):
+                m[rng.choice(["phase", "id"])] = rng.choice(["#7", "#42", "#2.5", "#true"])
         elif op == "release":
             m = msg0(type="release", nameplate=rng.choice([ABSENT, cl.np or ABSENT]))
         elif op == "close":
